@@ -28,7 +28,7 @@ m = {
     "hooks": {
         "guard": "verif",
         "enable": "go build/test -tags verif (the harness module /verif/harness replaces github.com/elk-language/elk with /repo and always builds with -tags verif)",
-        "baseline_off_cmd": "cd /repo && GOFLAGS= GOPROXY=off go test -vet=off -count=1 -timeout 25m ./...",
+        "baseline_off_cmd": "cd /repo && env -u ELKPATH GOFLAGS= GOPROXY=off go test -vet=off -count=1 -timeout 60m ./...",
         "source_commits": json.load(open(os.path.join(V, "hooks.json")))["source_commits"] if os.path.exists(os.path.join(V, "hooks.json")) else [],
         "add_only": True,
     },
